@@ -357,7 +357,7 @@ fn cmd_run(a: &Args) -> i32 {
             "known_findings_observed": known_hit,
             "cross_variant": cross_info,
             "real_code": ["ark-poly-commit (all of /repo/poly-commit/src)", "ark-ff", "ark-ec", "ark-poly", "ark-serialize", "ark-crypto-primitives (Poseidon sponge, Merkle tree, SHA-256/Blake2s CRHs)"],
-            "stubbed": ["rayon scheduler (deterministic shim, /verif/shims/rayon)", "OS entropy (Hyrax thread_rng behind the pc_verif hook)", "party RNGs (ChaCha20 streams)", "store / channel / I/O endpoints (in-memory with scripted faults)"],
+            "stubbed": [if cfg!(feature = "shim") { "rayon scheduler (deterministic shim, /verif/shims/rayon)" } else { "rayon scheduler NOT stubbed in this run: the simulated build failed against this tree and the check fell back to the real-rayon build (schedules not controlled; see DESIGN.md 7)" }, "OS entropy (Hyrax thread_rng behind the pc_verif hook)", "party RNGs (ChaCha20 streams)", "store / channel / I/O endpoints (in-memory with scripted faults)"],
             "exhaustive": false,
         },
         "assumptions": assumptions_of(&property),
